@@ -31,7 +31,13 @@ RULE = (
     "over {null, 0, 'a', {}, []} with <=2 members, nulls nested at depth>=2 in dicts and lists, seeded deep JSON with empty "
     "containers, ints over the whole signed and unsigned 64-bit range, floats, control / U+2028 / astral characters) x ids (0, "
     "negative, 2^53.., 2^63.., 2^64-1, '', digit strings, ' 7 ', non-ASCII) x method names as strings and MessageMethod members x "
-    "handlers raising a spread of exception types (non-JSON args: bytes, objects, sets; no args; chained causes); each emitted "
+    "handlers raising a spread of exception types (non-JSON args: bytes, objects, sets; no args; chained causes; unprintable); "
+    "hardening: falsy values at every caller-supplied position, type twins, string / integer constants harvested from the anchored "
+    "modules fed back as methods, texts, ids and codes, format-hostile and 100 kB texts, to_specific_type / from_specific_type / "
+    "JSONRPCMessageWrapper, send_message with timeout 0 and with cancellation before / exactly at the poll boundaries under the three "
+    "tie orders, sequences on shared objects (one params dict, one handler incl. sessions and a second initialize, one batch "
+    "processor across version changes), bursts of 99..101 (thorough: 1..1000) messages through each transport object, raw-string / "
+    "dump-only / list / extra-member messages at the stdio writer; each emitted "
     "object is observed as model_dump(exclude_none=True), as the decoded model_dump_json text and as dumps(model_dump), checked "
     "for serialisability, against the JSON-RPC 2.0 grammar, against the members the constructed message object holds, re-parsed "
     "with the library's parse_message and compared member by member, and compared with the Lean model's emit/parseMsg; the quick "
@@ -54,6 +60,13 @@ IDS = [{"i": 0}, {"i": 1}, {"i": -1}, {"i": 2 ** 53 + 1}, {"i": 2 ** 63 - 1}, {"
        J.S("1e3"), J.S(" 1"), J.S(" 7 "), J.S("\t7\n"), J.S("é \U0001F600"), J.S("a\nb")]
 QUICK_IDS = [{"i": 0}, {"i": -1}, {"i": 2 ** 63}, {"i": 2 ** 64 - 1}, J.S(""), J.S("123"), J.S(" 7 "), J.S("é \U0001F600")]
 TEXTS = [J.cps("x"), J.cps(""), J.cps("tools/call"), J.cps("a\"b\\c\n\x00\x1f\x7f"), J.cps("é  \U0001F600")]
+HOSTILE = [J.cps(t) for t in ["%", "%s %d", "%(x)s", "{}", "{0}", "{x}", "\r\n", "\n", "\u2028\u2029\u0085", "'", "\"", "\\", "\\\"", " ", "0", "false",
+                                "null", "None", "2.0", "jsonrpc"]]
+HOSTILE.append(J.of_py("%s {} \n" * 12_500)["s"])  # ~100 kB, in the compact transport form
+TWINS = {"o": [[J.cps("l"), {"a": [{"i": 1}, True, {"f": (1.0).hex()}, J.S("1")]}],
+               [J.cps("z"), {"a": [{"i": 0}, False, {"f": (0.0).hex()}, J.S(""), None, {"a": []}, {"o": []}]}],
+               [J.cps("7"), {"i": 7}], [J.cps("7.0"), {"f": (7.0).hex()}], [J.cps("true"), True], [J.cps(""), J.S("7")]]}
+FALSY = [None, {"o": []}, {"a": []}, {"i": 0}, {"f": (0.0).hex()}, False, {"s": []}]
 LEAVES = [None, {"i": 0}, {"s": [97]}, {"o": []}, {"a": []}]
 KEYS = [[107], [0xE9]]
 NAMED_CODES = [-32700, -32600, -32601, -32602, -32603, -32000, -32001, -32002]
@@ -89,6 +102,7 @@ NESTED_NULLS = [
     {"o": [[J.cps("a"), {"o": [[J.cps("b"), None]]}], [J.cps("c"), {"a": [{"o": [[J.cps("d"), None], [J.cps("e"), {"i": 1}]]}]}]]},
 ]
 SPECIAL_PAYLOADS = SPECIAL_PAYLOADS[:1] + NESTED_NULLS + SPECIAL_PAYLOADS[1:]
+SPECIAL_PAYLOADS = SPECIAL_PAYLOADS + [TWINS]
 ENUM_METHODS = ["PING", "TOOLS_CALL", "NOTIFICATION_PROGRESS", "NOTIFICATION_CANCELLED"]
 BAD_META = [
     {"o": [[J.cps("_meta"), None]]}, {"o": [[J.cps("_meta"), {"s": J.cps("str")}]]}, {"o": [[J.cps("_meta"), {"a": []}]]},
@@ -126,16 +140,27 @@ def gen_cases(ctx, budget, names):
     D = R.drivers()
     out = []
 
+    strs, variants, ints = R.harvest_constants()
+    magic = strs + variants
+    n_magic = 30 if quick else len(magic)
+    texts = TEXTS + HOSTILE[:-1] + [J.cps(t) for t in rng.sample(magic, min(n_magic, len(magic)))]
+    magic_ids = [J.S(t) for t in rng.sample(magic, min(10 if quick else 200, len(magic)))]
+    codes = CODES + NAMED_CODES + [i for i in ints] + [-i for i in ints if i]
+    note = (f"gen({budget}): {len(strs)} string / {len(ints)} integer constants harvested from the anchored modules "
+            f"(+{len(variants)} spelling variants); {min(n_magic, len(magic))} fed as texts / methods, {len(magic_ids)} as ids")
+    if note not in ctx.notes:
+        ctx.notes.append(note)
+
     def payloads(k):
         ps = list(SPECIAL_PAYLOADS)
         ps += [rand_obj(rng) for _ in range(k)]
         return ps
 
     def pick_id():
-        return rng.choice(IDS)
+        return rng.choice(IDS + magic_ids)
 
     def pick_text():
-        return rng.choice(TEXTS)
+        return rng.choice(texts)
 
     for name in names:
         fam = D[name][0] if name in D else None
@@ -153,17 +178,19 @@ def gen_cases(ctx, budget, names):
             handler = ".ProtocolHandler." in name
             if is_err:
                 for i in ids + ([] if legacy else [None]):
-                    for data in [None, {"o": []}, {"i": 0}, False, {"a": [None]}, SPECIAL_PAYLOADS[0]]:
-                        out.append(_case(name, id=i, code=rng.choice(CODES), message=pick_text(), **({} if handler else {"data": data})))
+                    for data in FALSY + [{"a": [None]}, SPECIAL_PAYLOADS[0], TWINS]:
+                        out.append(_case(name, id=i, code=rng.choice(codes), message=pick_text(), **({} if handler else {"data": data})))
+                for t in HOSTILE:
+                    out.append(_case(name, id=rng.choice(magic_ids + ids), code=rng.choice(codes), message=t, **({} if handler else {"data": J.S(R.s_(t))})))
                 for _ in range(150 if quick else 400):
-                    out.append(_case(name, id=pick_id(), code=rng.choice(CODES), message=pick_text(),
+                    out.append(_case(name, id=pick_id(), code=rng.choice(codes), message=pick_text(),
                                      **({} if handler else {"data": J.rand_value(rng, 4, 0.0)})))
             elif is_resp:
                 results = (objs if legacy else vals)
                 for r in results[:: (3 if quick else 1)]:
                     out.append(_case(name, id=pick_id(), result=r))
                 for i in ids + ([] if legacy else [None]):
-                    for r in [None, {"o": []}] + ([] if legacy else [{"a": []}, {"i": 0}, False, {"s": []}, {"f": (0.0).hex()}]) + SPECIAL_PAYLOADS[:2]:
+                    for r in [None, {"o": []}] + ([] if legacy else FALSY[2:]) + SPECIAL_PAYLOADS[:2] + [TWINS]:
                         out.append(_case(name, id=i, result=r))
                 for _ in range(250 if quick else 1500):
                     out.append(_case(name, id=pick_id(), result=(rand_obj(rng) if legacy else J.rand_value(rng, 4, 0.0))))
@@ -183,6 +210,11 @@ def gen_cases(ctx, budget, names):
                     a = dict(method=pick_text(), params=rand_obj(rng))
                     if not is_note:
                         a["id"] = pick_id()
+                    out.append(_case(name, **a))
+                for t in HOSTILE + texts[-8:]:
+                    a = dict(method=t, params=rng.choice([None, TWINS]))
+                    if not is_note:
+                        a["id"] = rng.choice(magic_ids + ids)
                     out.append(_case(name, **a))
                 for en in ENUM_METHODS:
                     for p in [None, SPECIAL_PAYLOADS[0]]:
@@ -204,10 +236,19 @@ def gen_cases(ctx, budget, names):
             for en in ENUM_METHODS:
                 for progress in (False, True):
                     out.append(_case(name, method_enum=en, params=SPECIAL_PAYLOADS[1], mid=J.cps(" 7 "), progress=progress))
+            for p in [None, {"o": []}, TWINS]:
+                out.append(_case(name, method=pick_text(), params=p, mid=rng.choice([None, J.cps("0")]), timeout0=True))
+                out.append(_case(name, method=pick_text(), params=p, mid=J.cps("7"), cancel="pre", progress=True))
+                # the caller cancels exactly on / around a poll boundary (0.5 s = 512 ticks), every tie order
+                for tick in (0, 1, 511, 512, 513, 1024):
+                    for tie in ("events", "timers", "io"):
+                        out.append(_case(name, method=pick_text(), params=p, mid=rng.choice([None, J.cps("7")]), cancel=tick, tie=tie))
         elif fam == "helper":
             for k, opt in enumerate((False, True)):
                 for j, t in enumerate(TEXTS):
                     out.append(_case(name, opt=opt, text=t, payload=SPECIAL_PAYLOADS[(k * len(TEXTS) + j) % len(SPECIAL_PAYLOADS)], id=pick_id()))
+            for t in rng.sample(HOSTILE + texts[-8:], 6 if quick else len(HOSTILE) + 8):
+                out.append(_case(name, opt=True, text=t, payload=TWINS, id=rng.choice(magic_ids + [{"i": 0}, J.S("")]), timeout0=rng.random() < 0.5))
             for _ in range(10 if quick else 60):
                 out.append(_case(name, opt=rng.random() < 0.5, text=pick_text(), payload=rand_obj(rng), id=pick_id()))
         elif fam == "server":
@@ -243,19 +284,55 @@ def gen_cases(ctx, budget, names):
                 for sc in scen:
                     method = {"ping": "ping", "initialize": "initialize", "initialized": "notifications/initialized"}.get(sc, "x/custom")
                     for i in ids:
-                        plist = [None, SPECIAL_PAYLOADS[0]] if sc != "custom-result" else [None, {"o": []}, {"a": [None]}, {"i": 0}, False] + SPECIAL_PAYLOADS[:3]
+                        plist = [None, SPECIAL_PAYLOADS[0]] if sc != "custom-result" else FALSY + [{"a": [None]}, TWINS] + SPECIAL_PAYLOADS[:3]
                         for p in plist:
                             params = None
                             if sc == "initialize":
                                 params = {"o": [[J.cps("protocolVersion"), J.S("2025-06-18")], [J.cps("clientInfo"), {"o": [[J.cps("name"), J.S("c")]]}]]}
-                            out.append(_case(name, scenario=sc, id=i, method=J.cps(method), params=params, payload=p, text=pick_text()))
+                            out.append(_case(name, scenario=sc, id=i, method=J.cps(method), params=params, payload=p, text=pick_text(),
+                                             extra=(len(out) % 3 == 0)))
                 if "custom-raises" in scen:
+                    for t in HOSTILE:
+                        out.append(_case(name, scenario="custom-raises", id=pick_id(), method=J.cps("x/custom"), text=t, exc=rng.choice(["runtime", "value", "app", "os"])))
                     for ek in R.EXC_KINDS:
                         for t in TEXTS[:3]:
                             out.append(_case(name, scenario="custom-raises", id=pick_id(), method=J.cps("x/custom"), text=t, exc=ek))
                 if short == "handle_message":
                     for _ in range(100 if quick else 600):
                         out.append(_case(name, scenario="custom-result", id=pick_id(), method=J.cps("x/custom"), payload=J.rand_value(rng, 4, 0.0)))
+        elif fam == "convert":
+            for of in ("request", "notification", "response", "error"):
+                for i in ids:
+                    for p in [None, {"o": []}, SPECIAL_PAYLOADS[0], TWINS]:
+                        out.append(_case(name, of=of, id=i, method=pick_text(), params=p, result=p, code=rng.choice(codes), message=pick_text(), data=p))
+            for _ in range(30 if quick else 400):
+                p = rand_obj(rng)
+                out.append(_case(name, of=rng.choice(["request", "notification", "response", "error"]), id=pick_id(), method=pick_text(),
+                                 params=p, result=p, code=rng.choice(codes), message=pick_text(), data=p))
+        elif fam == "seq":
+            pairs = [[{"i": 7}, J.S("7")], [J.S("7"), {"i": 7}], [{"i": 0}, J.S("")], [J.S(" 7 "), {"i": 2 ** 64 - 1}], [{"i": 1}, {"i": 1}]]
+            for idp in pairs:
+                if name == "seq:shared-params":
+                    orders = [["create_request+token", "create_request+token", "create_request"],
+                              ["send_message+progress", "send_message+progress", "send_message"],
+                              ["send_message+progress", "create_request", "create_notification"],
+                              ["create_notification", "send_message", "create_request+token"]]
+                    for steps in orders:
+                        for p in [None, {"o": []}, SPECIAL_PAYLOADS[0], SPECIAL_PAYLOADS[5] if len(SPECIAL_PAYLOADS) > 5 else TWINS]:
+                            out.append(_case(name, steps=steps, ids=idp, method=pick_text(), params=p))
+                elif name == "seq:handler-reuse":
+                    orders = [["initialize", "initialize", "ping"], ["x/ok", "x/bad", "x/ok"], ["x/bad", "x/bad", "ping"],
+                              ["ping", "nope", "x/ok", "initialize"], ["initialize", "x/ok", "ping", "x/bad"]]
+                    for steps in orders:
+                        for session in (False, True):
+                            out.append(_case(name, steps=steps, ids=idp, session=session, payload=rng.choice(FALSY + [TWINS]),
+                                             text=pick_text(), exc=rng.choice(R.EXC_KINDS), version=rng.choice([J.cps("2025-06-18"), J.cps("1999-01-01"), J.cps("")])))
+                else:
+                    orders = [["bad", "bad"], ["bad", "version:2025-06-18", "bad"], ["version:2025-06-18", "ping", "version:2025-03-26", "bad"],
+                              ["ping", "bad", "version:", "bad"]]
+                    for steps in orders:
+                        out.append(_case(name, steps=steps, ids=idp, text=pick_text(), exc=rng.choice(R.EXC_KINDS),
+                                         version=rng.choice([J.cps("2025-03-26"), J.cps("2025-06-18")])))
         elif fam == "dict":
             for i in [None] + ids:
                 out.append(_case(name, id=i, version=J.cps("2025-06-18")))
@@ -272,11 +349,19 @@ def gen_cases(ctx, budget, names):
             for ek in R.EXC_KINDS:
                 out.append(_case(name, id=pick_id(), text=pick_text(), exc=ek, payload=SPECIAL_PAYLOADS[1], code=rng.choice(NAMED_CODES)))
         elif fam == "transport":
-            kinds = R.CREATED_INNERS + R.DIRECT_INNERS
-            for inner in kinds:
-                for i in ids:
+            kinds = R.CREATED_INNERS + R.DIRECT_INNERS + (R.STDIO_ONLY_INNERS if "stdio" in name else [])
+            for n in ((99, 100, 101) if quick and "stdio" in name else (101,) if quick else (1, 99, 100, 101, 102, 250, 1000)):  # around the 100-slot memory streams
+                out.append(_case(name, inner="burst", n=n, method=pick_text(), params=rng.choice([None, TWINS]), id={"i": 0}))
+            big = {"o": [[J.cps("t"), {"s": HOSTILE[-1]}], [J.cps("n"), None]]}  # ~100 kB in one message (64 KiB pipe chunks)
+            for inner in ("request", "direct-notification", "dict", "response"):
+                out.append(_case(name, inner=inner, id=pick_id(), method=pick_text(), params=big, result=big, code=0, message=HOSTILE[-1], data=big))
+            if "stdio" not in name:
+                for inner in R.STDIO_ONLY_INNERS:  # not a model and not a dict: nothing may go out
+                    out.append(_case(name, inner=inner, id=pick_id(), method=pick_text(), params=TWINS))
+            for ki, inner in enumerate(kinds):
+                for i in (ids[ki % 2::2] if quick else ids):
                     for p in [None, {"o": []}] + SPECIAL_PAYLOADS[:4]:
-                        a = dict(inner=inner, id=i, method=pick_text(), params=p, result=p, code=rng.choice(CODES), message=pick_text(), data=p)
+                        a = dict(inner=inner, id=i, method=pick_text(), params=p, result=p, code=rng.choice(codes), message=pick_text(), data=p)
                         out.append(_case(name, **a))
                 if "request" in inner or "notification" in inner:
                     for en in ENUM_METHODS[:2]:
@@ -284,7 +369,7 @@ def gen_cases(ctx, budget, names):
             for _ in range(40 if quick else 300):
                 p = rand_obj(rng)
                 out.append(_case(name, inner=rng.choice(kinds), id=pick_id(),
-                                 method=pick_text(), params=p, result=p, code=rng.choice(CODES), message=pick_text(), data=p))
+                                 method=pick_text(), params=p, result=p, code=rng.choice(codes), message=pick_text(), data=p))
             # whatever the other emitters produce goes through the real serialiser as well
             routed = [c for c in out if D.get(c["emitter"], ("",))[0] in ("send_message", "helper", "server", "dict", "literal")]
             by_em = {}
@@ -304,8 +389,19 @@ def py(t):
     return J.to_py(t)
 
 
+_canon_cache: dict = {}
+
+
 def canon(t):
-    return core.canon(J.unordered(t))
+    """canonical text of a transport value; memoised per object for the duration of one case"""
+    k = id(t)
+    hit = _canon_cache.get(k)
+    if hit is not None and hit[0] is t:
+        return hit[1]
+    r = core.canon(J.unordered(t))
+    if isinstance(t, (dict, list)):
+        _canon_cache[k] = (t, r)
+    return r
 
 
 def members(wire_t):
@@ -416,7 +512,42 @@ def check_emitted(case, e, form):
     return None
 
 
+def branch_of(case):
+    """which branch of the anchored code a case aims at (shown in the evidence distribution)"""
+    a, em = case["args"], case["emitter"]
+    bits = []
+    if em.startswith("transport:"):
+        bits.append(em.split(":")[1].split("-")[0])
+        inner = a.get("inner")
+        bits.append("routed" if isinstance(inner, dict) else str(inner))
+    elif em.startswith("seq:"):
+        bits.append(em[4:])
+    elif em.startswith("literal:"):
+        bits.append(em.split(":")[1].split("/")[-1][:-3])
+    else:
+        short = em.split(".")[-1]
+        if ".method:" in em:
+            short = em.split(".method:")[1]
+        bits.append(short)
+        for k in ("scenario", "of"):
+            if a.get(k):
+                bits.append(str(a[k]))
+        if a.get("exc"):
+            bits.append("exc")
+        if a.get("cancel") is not None:
+            bits.append("cancel-pre" if a["cancel"] == "pre" else f"cancel-{a.get('tie')}")
+        if a.get("timeout0"):
+            bits.append("timeout0")
+        if a.get("progress") or a.get("tok") is not None:
+            bits.append("progress")
+        if a.get("method_enum"):
+            bits.append("enum")
+    return ":" + ",".join(bits) if bits else ""
+
+
 def inner_ctor(inner):
+    if inner in ("raw-str", "dump-only", "converted", "wrapped"):
+        return "create_request"
     for k, v in (("request", "create_request"), ("notification", "create_notification"), ("response", "create_response"),
                  ("error", "create_error_response"), ("dict", "create_request")):
         if k in inner:
@@ -439,7 +570,7 @@ def expected_payload(case):
     if fam == "ctor" or fam == "transport":
         inner = a.get("inner")
         if fam == "transport":
-            if isinstance(inner, dict):
+            if isinstance(inner, dict) or inner in ("list", "burst"):
                 return []
             short = inner_ctor(inner)
             if "legacy-response" in inner:
@@ -457,6 +588,19 @@ def expected_payload(case):
             return [("result", {"o": []} if r is None else r), ("id", a.get("id"))]
         if short == "create_error_response":
             return [("id", a.get("id"))]
+    if fam == "convert":
+        of = a.get("of", "request")
+        if of in ("request", "notification"):
+            return [("method", {"s": a["method"]}), ("params", a.get("params"))] + ([] if of == "notification" else [("id", a.get("id"))])
+        if of == "response":
+            r = a.get("result")
+            legacy_src = "to_specific_type" in em
+            if legacy_src:
+                return [("id", a.get("id"))]
+            return [("result", {"o": []} if r is None else r), ("id", a.get("id"))]
+        return [("id", a.get("id"))]
+    if fam == "send_message" and a.get("cancel") is not None:
+        return []
     if fam == "send_message" and not a.get("progress"):
         return [("params", a.get("params"))] + ([("id", {"s": a["mid"]})] if a.get("mid") else [])
     if fam == "server" and a.get("scenario") == "custom-result":
@@ -512,6 +656,7 @@ class Emitters(Suite):
 
     # -- oracle -------------------------------------------------------------------------------
     def oracle(self, case, o):
+        _canon_cache.clear()
         if o.get("skipped"):
             self.skipped.setdefault(case["emitter"], o["skipped"])
             return None  # a literal the harness cannot evaluate: a visible note, not a divergence
@@ -547,11 +692,11 @@ class Emitters(Suite):
         if o.get("skipped"):
             return "literal/skipped"
         if not o["emitted"]:
-            return f"{fam}/nothing-emitted/{'raised' if o.get('raised') else 'silent'}"
+            return f"{fam}{branch_of(case)}/nothing-emitted/{'raised' if o.get('raised') else 'silent'}"
         e = o["emitted"][0]
         mem = members(e.get("dump", {}).get("wire")) or {}
         wv = wire_view(mem)
-        return f"{fam}/{kind_of(wv['id'], wv['method'], wv['result'], wv['error'])}"
+        return f"{fam}{branch_of(case)}/{kind_of(wv['id'], wv['method'], wv['result'], wv['error'])}"
 
     def nontrivial(self, case, o):
         return bool(o["emitted"])
@@ -612,7 +757,7 @@ class EmittersFallback(Emitters):
         cs = super().cases(ctx, budget)
         if budget == "quick":
             # reduced pass: every case whose payload carries a null nested at depth >= 2, every 3rd other case
-            cs = [c for i, c in enumerate(cs) if i % 3 == 0 or has_nested_null(c)]
+            cs = [c for i, c in enumerate(cs) if i % 4 == 0 or has_nested_null(c)]
         return cs
 
     def run_impl(self, cases):
@@ -647,8 +792,18 @@ def _err_parts(mem):
     return code, msg, e.get("data")
 
 
+def _has_compact(x):
+    if isinstance(x, dict):
+        return "srep" in x or "nest" in x or any(_has_compact(v) for v in x.values())
+    if isinstance(x, list):
+        return any(_has_compact(v) for v in x)
+    return False
+
+
 def model_line_for(case, o):
     em, a = case["emitter"], case["args"]
+    if _has_compact(a):
+        return None  # a ~100 kB text: property oracle only
     fam = R.drivers()[em][0]
     short = em.split(".")[-1]
     mem = first_members(o)
@@ -680,11 +835,20 @@ def model_line_for(case, o):
         inner = a.get("inner")
         if isinstance(inner, dict):
             return model_line_for({"emitter": inner["emitter"], "args": inner.get("args") or {}}, o)
+        if inner in ("dict-extra", "list", "burst") or (inner in R.STDIO_ONLY_INNERS and "stdio" not in em):
+            return None  # extra members / several messages / nothing sent: property oracle only
         sh = inner_ctor(inner)
         if "legacy-response" in inner:  # a dict result, `{}` otherwise
             r = a.get("result")
             return {**base, "ctor": "legacy_create_response", "id": a.get("id"), "result": r if isinstance(r, dict) and "o" in r else None}
         return ctor_line(sh, "legacy" in inner, False, a)
+    if fam == "seq" or (fam == "send_message" and a.get("cancel") is not None):
+        return None  # several messages on shared objects: property oracle only
+    if fam == "convert":
+        of = a.get("of", "request")
+        legacy = "to_specific_type" in em  # built with the legacy class methods first
+        return ctor_line({"request": "create_request", "notification": "create_notification", "response": "create_response",
+                          "error": "create_error_response"}[of], legacy, False, a)
     if fam == "send_message":
         fresh_id = (mem.get("id") or {}).get("s", []) if mem else []
         tok = []
